@@ -352,6 +352,25 @@ func check(c Case) (string, info) {
 	if !eq(readBack(M, n, n), elems) || !eq(readBack(N, n, rhs), nE) {
 		return "Times modified an operand", inf
 	}
+	// wide right-hand side: M times a n x w matrix (w >= 16 for n >= 2), and M times itself
+	if n <= 128 {
+		w := 16 + n%9
+		wE := make([]uint16, n*w)
+		for i := range wE {
+			wE[i] = rnd16(&s)
+		}
+		W := gf2p16.NewMatrixFromSlice(n, w, toT(wE))
+		var pw, pm gf2p16.Matrix
+		if p, msg := run.Safe(func() { pw = M.Times(W); pm = M.Times(M) }); p {
+			return "Times panicked: " + msg, inf
+		}
+		if !eq(readBack(pw, n, w), gf16.FMatMul(n, n, w, elems, wE)) {
+			return fmt.Sprintf("Times with a %d-column right-hand side differs from the row-by-column reference product", w), inf
+		}
+		if !eq(readBack(pm, n, n), gf16.FMatMul(n, n, n, elems, elems)) {
+			return "M.Times(M) differs from the row-by-column reference product", inf
+		}
+	}
 	return "", inf
 }
 
